@@ -68,6 +68,13 @@ Theorem C08_composite_total : forall (X : Type) (ls : list (layer R X X)) (x : X
 Proof. exact comp_fwd_total. Qed.
 Print Assumptions C08_composite_total.
 
+(* array level: evaluating a batch in chunks (any chunking, including a last partial chunk) gives exactly one density per
+   input row, in order - what log_prob_ith / log_prob_all / FlowModel.log_prob must return for arrays of any size *)
+Theorem C08_batched_rows : forall (X T : Type) (f : X -> T) (chunks : list (list X)),
+  batched_eval f chunks = map f (concat chunks) /\ length (batched_eval f chunks) = length (concat chunks).
+Proof. intros. split; [apply batched_eval_rows | apply batched_eval_length]. Qed.
+Print Assumptions C08_batched_rows.
+
 (* non-vacuity: two affine layers on R *)
 Example C08_nonvacuous :
   let l (a b : R) : layer R R R := {| fwd := fun x => (a * x + b, ln a); inv := fun y => ((y - b) / a, - ln a) |} in
